@@ -301,4 +301,201 @@ theorem pinv_terminal {nw nfiles : Nat} {s : PState} (h : PInv nw nfiles s) (hnw
   subst this
   simpa using hperm
 
+/-! ### the end-marker protocol with failing reads: it still always terminates with every worker stopped -/
+
+/-- an enabled worker step of the failing-read protocol is a step of the plain protocol, or the failing read of a file -/
+theorem stepWF_cases (fails : List Nat → Nat → Bool) (s : PState) (i : Nat) :
+    stepWF fails s i = stepW true s i ∨
+    ∃ w k d, s.ws[i]? = some w ∧ w.phase = Phase.asking ∧ s.delivered = Item.file k :: d ∧ fails w.taken k = true ∧
+      stepWF fails s i = { s with delivered := d, ws := s.ws.set i { phase := .done, taken := w.taken ++ [k] } } := by
+  simp only [stepWF]
+  cases hw : s.ws[i]? with
+  | none => left; simp [stepW, hw]
+  | some w =>
+    simp only
+    split
+    · rename_i k d hp hd
+      by_cases hf : fails w.taken k = true
+      · right; exact ⟨w, k, d, rfl, hp, hd, hf, by simp [hf]⟩
+      · left; simp [hf]
+    · left; rfl
+
+theorem stepWF_of_never (fails : List Nat → Nat → Bool) (hf : ∀ t k, fails t k = false) (s : PState) (i : Nat) :
+    stepWF fails s i = stepW true s i := by
+  rcases stepWF_cases fails s i with h | ⟨w, k, d, _, _, _, h, _⟩
+  · exact h
+  · rw [hf] at h; cases h
+
+theorem runProtoF_of_never (fails : List Nat → Nat → Bool) (hf : ∀ t k, fails t k = false) :
+    ∀ (fuel : Nat) (cs : List Nat) (s : PState), runProtoF fails fuel cs s = runProto true fuel cs s := by
+  intro fuel
+  induction fuel with
+  | zero => intro cs s; rfl
+  | succ fuel ih =>
+    intro cs s
+    simp only [runProtoF, runProto]
+    cases he : enabledActs true s with
+    | nil => rfl
+    | cons a as =>
+      simp only
+      have : ∀ act, applyActF fails s act = applyAct true s act := by
+        intro act; cases act with
+        | deliver => rfl
+        | step i => simp [applyActF, applyAct, stepWF_of_never fails hf]
+      rw [this, ih]
+
+theorem mu_applyF (fails : List Nat → Nat → Bool) {s : PState} {a : Act} (h : a ∈ enabledActs true s) :
+    mu (applyActF fails s a) < mu s := by
+  cases a with
+  | deliver => exact mu_apply (b := true) h
+  | step i =>
+    simp only [applyActF]
+    rcases stepWF_cases fails s i with e | ⟨w, k, d, hw, hp, hd, _, e⟩
+    · rw [e]; exact mu_apply (b := true) h
+    · rw [e]
+      have := sumBy_set wt s.ws i w { phase := .done, taken := w.taken ++ [k] } hw
+      simp only [mu, wt, hp, hd, List.length_cons] at this ⊢; omega
+
+theorem run_terminalF (fails : List Nat → Nat → Bool) : ∀ (fuel : Nat) (cs : List Nat) (s : PState), mu s < fuel →
+    enabledActs true (runProtoF fails fuel cs s) = [] := by
+  intro fuel
+  induction fuel with
+  | zero => intro cs s h; omega
+  | succ fuel ih =>
+    intro cs s h
+    simp only [runProtoF]
+    cases he : enabledActs true s with
+    | nil => simpa using he
+    | cons a as =>
+      simp only
+      apply ih
+      have hm : ((a :: as)[(cs.head?.getD 0) % (as.length + 1)]?).getD a ∈ enabledActs true s := by
+        rw [he]; exact chosen_mem a as _
+      have := mu_applyF fails hm
+      omega
+
+theorem run_invF (fails : List Nat → Nat → Bool) (P : PState → Prop)
+    (hP : ∀ s a, P s → a ∈ enabledActs true s → P (applyActF fails s a)) :
+    ∀ (fuel : Nat) (cs : List Nat) (s : PState), P s → P (runProtoF fails fuel cs s) := by
+  intro fuel
+  induction fuel with
+  | zero => intro cs s h; exact h
+  | succ fuel ih =>
+    intro cs s h
+    simp only [runProtoF]
+    cases he : enabledActs true s with
+    | nil => exact h
+    | cons a as =>
+      simp only
+      apply ih
+      apply hP s _ h
+      rw [he]; exact chosen_mem a as _
+
+/-- invariant that survives failing reads: the queue is `files not yet taken` then markers, and there are at least as many
+    markers as workers still running (a worker that fails leaves its marker behind) -/
+structure QInv (nw : Nat) (s : PState) : Prop where
+  len : s.ws.length = nw
+  queue : ∃ (fs : List Nat) (m : Nat), s.delivered ++ s.inflight = fs.map Item.file ++ List.replicate m Item.stop ∧ sumBy nd s.ws ≤ m
+
+theorem qinv_init (nw nfiles : Nat) : QInv nw (initP true nw nfiles) := by
+  refine ⟨by simp [initP], List.range nfiles, nw, ?_, ?_⟩
+  · simp [initP]
+  · simp [initP, sumBy_replicate, nd]
+
+theorem head_file_of_queue {fs : List Nat} {m k : Nat} {d rest : List Item}
+    (hq : Item.file k :: d ++ rest = fs.map Item.file ++ List.replicate m Item.stop) :
+    ∃ fs', fs = k :: fs' ∧ d ++ rest = fs'.map Item.file ++ List.replicate m Item.stop := by
+  cases fs with
+  | nil =>
+    cases m with
+    | zero => simp at hq
+    | succ m => simp [List.replicate_succ] at hq
+  | cons k' fs' =>
+    simp only [List.map_cons, List.cons_append, List.cons.injEq, Item.file.injEq] at hq
+    exact ⟨fs', by rw [hq.1], hq.2⟩
+
+theorem qinv_apply (fails : List Nat → Nat → Bool) {nw : Nat} (s : PState) (a : Act) (h : QInv nw s) (ha : a ∈ enabledActs true s) :
+    QInv nw (applyActF fails s a) := by
+  obtain ⟨hlen, fs, m, hq, hm⟩ := h
+  rcases mem_enabled ha with ⟨rfl, hne⟩ | ⟨i, rfl, hi⟩
+  · cases hin : s.inflight with
+    | nil => exact absurd hin hne
+    | cons x r =>
+      refine ⟨by simpa [applyActF, applyAct, hin] using hlen, fs, m, ?_, by simpa [applyActF, applyAct, hin] using hm⟩
+      simp only [applyActF, applyAct, hin]
+      rw [hin] at hq
+      simpa using hq
+  · simp only [applyActF]
+    rcases stepWF_cases fails s i with e | ⟨w, k, d, hw, hp, hd, _, e⟩
+    · rw [e]
+      have hc := step_cases hi
+      generalize stepW true s i = s' at hc ⊢
+      cases hc with
+      | start w hw hp =>
+        have hs := sumBy_set nd s.ws i w { w with phase := .asking } hw
+        have hsum : sumBy nd (s.ws.set i { w with phase := .asking }) = sumBy nd s.ws := by
+          simp only [nd, hp] at hs; omega
+        exact ⟨by simpa using hlen, fs, m, by simpa using hq, by simpa [hsum] using hm⟩
+      | quit w hw hp hd hb => cases hb
+      | take w hw hp k d hd =>
+        have hs := sumBy_set nd s.ws i w { w with taken := w.taken ++ [k] } hw
+        have hsum : sumBy nd (s.ws.set i { w with taken := w.taken ++ [k] }) = sumBy nd s.ws := by
+          have e : nd { w with taken := w.taken ++ [k] } = nd w := rfl
+          rw [e] at hs; omega
+        rw [hd] at hq
+        obtain ⟨fs', _, hq'⟩ := head_file_of_queue hq
+        exact ⟨by simpa using hlen, fs', m, by simpa using hq', by simpa [hsum] using hm⟩
+      | stop w hw hp d hd =>
+        have hs := sumBy_set nd s.ws i w { w with phase := .done } hw
+        have hsum : sumBy nd (s.ws.set i { w with phase := .done }) + 1 = sumBy nd s.ws := by
+          simp only [nd, hp] at hs; omega
+        rw [hd] at hq
+        cases fs with
+        | cons k' fs' => simp at hq
+        | nil =>
+          cases m with
+          | zero => simp at hq
+          | succ m' =>
+            refine ⟨by simpa using hlen, [], m', ?_, ?_⟩
+            · simp only [List.replicate_succ, List.map_nil, List.nil_append, List.cons_append, List.cons.injEq, true_and] at hq
+              simpa using hq
+            · simp only; omega
+    · rw [e]
+      have hs := sumBy_set nd s.ws i w { phase := .done, taken := w.taken ++ [k] } hw
+      have hsum : sumBy nd (s.ws.set i { phase := .done, taken := w.taken ++ [k] }) + 1 = sumBy nd s.ws := by
+        simp only [nd, hp] at hs; omega
+      rw [hd] at hq
+      obtain ⟨fs', _, hq'⟩ := head_file_of_queue hq
+      exact ⟨by simpa using hlen, fs', m, by simpa using hq', by simp only; omega⟩
+
+/-- where nothing is enabled, every worker has stopped -/
+theorem qinv_terminal {nw : Nat} {s : PState} (h : QInv nw s) (ht : enabledActs true s = []) :
+    ∀ w ∈ s.ws, w.phase = Phase.done := by
+  obtain ⟨hlen, fs, m, hq, hm⟩ := h
+  simp only [enabledActs, List.append_eq_nil_iff, List.map_eq_nil_iff, List.filter_eq_nil_iff, List.mem_range] at ht
+  obtain ⟨hin, hst⟩ := ht
+  have hin' : s.inflight = [] := by
+    by_cases he : s.inflight.isEmpty
+    · simpa using he
+    · simp [he] at hin
+  intro w hw
+  obtain ⟨i, hi, hget⟩ := List.getElem_of_mem hw
+  have hget' : s.ws[i]? = some w := by rw [List.getElem?_eq_getElem hi, hget]
+  have hen := hst i hi
+  simp only [stepEnabled, hget'] at hen
+  cases hp : w.phase with
+  | done => rfl
+  | fresh => simp [hp] at hen
+  | asking =>
+    exfalso
+    simp only [hp, Bool.not_true, Bool.false_or, Bool.not_eq_true', List.isEmpty_eq_false_iff, ne_eq, not_not] at hen
+    have hd : s.delivered = [] := by simpa using hen
+    rw [hd, hin'] at hq
+    have h1 := nd_le_sumBy hw
+    simp only [nd, hp] at h1
+    cases m with
+    | zero => omega
+    | succ m' =>
+      cases fs <;> simp [List.replicate_succ] at hq
+
 end DendroModel.C06.Aux
